@@ -98,7 +98,14 @@ func genRequest(rng *Rng, o genReqOpts) []byte {
 	default: // chunked
 		head = []byte(m + " " + t + " HTTP/1.1\r\n")
 		var trailers [][2]string
-		if rng.Intn(3) == 0 {
+		if rng.Intn(12) == 0 {
+			// trailer names starting with the byte '0' (parseTrailer's "skip a 0 length chunk" looked at the first byte only)
+			extra = append(extra, "Trailer: 0, 0a, 00\r\n")
+			trailers = append(trailers, [2]string{pick(rng, []string{"0", "0a", "00"}), pick(rng, []string{"x", "b:c", ""})})
+			if rng.Bool() {
+				trailers = append(trailers, [2]string{"0a", "w"})
+			}
+		} else if rng.Intn(3) == 0 {
 			extra = append(extra, "Trailer: X-T1, X-T2\r\n")
 			trailers = append(trailers, [2]string{"X-T1", "v1"})
 			if rng.Bool() {
